@@ -635,11 +635,20 @@ class Check(PropertyCheck):
                   "attributes, lifted to runs by induction, plus a trace monitor.  The model is tied to the real HttpLayer "
                   "per stream: the recorded input sequence of every real HttpStream is replayed through the compiled "
                   "model, which must emit the same commands call by call, accept every input under its event grammar, "
-                  "and agree on final state and on being settled after all connections closed.")
+                  "and agree on final state and on being settled after all connections closed.  For HTTP/1 the event-"
+                  "grammar hypothesis is discharged: `grammar_holds` proves that every history the emitter model "
+                  "(Http1Server/Http1Client/HttpLayer per stream: headers once → data* → end | protocol error, nothing but "
+                  "protocol errors after one; response events only once the request went upstream; completions only for "
+                  "the pending command) can deliver stays inside the grammar, including queue replay and queues left "
+                  "behind by exceptions, so the six `_http1` theorems need no hypothesis besides admissibility; every real "
+                  "per-stream event sequence is checked to be admissible (adm=1).  HTTP/2 client/server exchanges "
+                  "(multiplexed streams, trailers, resets, early responses) run through the direct oracle only.")
     level_note = ("trusted: Lean kernel; hand-written model (validated differentially, ~0 mismatches on >10^5 scripts); the "
-                  "event grammar of Http1Server/Http1Client/HttpLayer is a hypothesis of the theorems (bad=false) that is "
-                  "checked on every real trace, not proved about a model of those classes; HTTP/1 only (no trailers; "
-                  "HTTP/2 multiplexing is C05); options websocket/rawtcp at their defaults; regular mode; runs in which an "
+                  "emitter model of Http1Server/Http1Client/HttpLayer is itself a hand-written abstraction, tied by checking "
+                  "that every real per-stream event sequence is one it can produce (not by a proof about those classes); "
+                  "model tie for HTTP/1 only — HTTP/2 pairs (incl. trailers) are judged by the six oracle predicates on the "
+                  "hook trace, without model tie, and HTTP/2 histories are covered by the theorems only under the general "
+                  "bad=false hypothesis; options websocket/rawtcp at their defaults; regular mode; runs in which an "
                   "exception raised OUTSIDE HttpStream (Http1Server/HttpLayer/server assertions) abandons a suspended "
                   "stream generator are judged by the direct oracle only, not compared with the model.")
     technique = ("Lean 4 proof (inductive invariant over all input histories of the HttpStream model + trace monitor) "
@@ -648,7 +657,9 @@ class Check(PropertyCheck):
             "responses, websocket/101, CONNECT, malformed heads/bodies on either side, body-size options) × one fault "
             "(client/server close, protocol error on either side, connect failure) at every step index × body-size "
             "options × addon policy per hook and flow (pass/kill/set response/enable streaming, each optionally "
-            "intercepted and resumed at a later step or after everything closed) × immediate/deferred connects. "
+            "intercepted and resumed at a later step or after everything closed) × immediate/deferred connects; plus "
+            "7 HTTP/2 client/server skeletons (multiplexed streams, split bodies, trailers, early response) × stream "
+            "reset / connection close / connect failure at every step × the same policies (oracle only). "
             "distinct = distinct (script, policy, defer, connect, options); non-trivial = at least one flow fired "
             "requestheaders.")
     budget = {"quick": 9000, "thorough": 400000}
